@@ -187,11 +187,25 @@ package ovsdb
 // nativeTypeOf(column): the Go type the mapper expects for a column (the value
 // NativeType computes; a function of the column schema object).
 //@ ghost func nativeTypeOf(*ColumnSchema) reflect.Type
+// The native type by cases (C20): what the mapper expects for a well-formed column.
+//@ pred IsAtom(a string) := a == "integer" || a == "real" || a == "boolean" || a == "string" || a == "uuid"
+//@ pred atomRT(a string) := ite(a == "integer", rtypeof("int"), ite(a == "real", rtypeof("float64"), ite(a == "boolean", rtypeof("bool"), rtypeof("string"))))
+//@ pred colMin(c *ColumnSchema) := ite(c.TypeObj.min == nil, 1, *c.TypeObj.min)
+//@ pred colMax(c *ColumnSchema) := ite(c.TypeObj.max == nil, 1, *c.TypeObj.max)
+//@ pred nativeRT(c *ColumnSchema) := ite(c.Type == "enum", atomRT(c.TypeObj.Key.Type), ite(c.Type == "map", mapof(atomRT(c.TypeObj.Key.Type), atomRT(c.TypeObj.Value.Type)), ite(c.Type == "set", ite(colMin(c) == 0 && colMax(c) == 1, ptrto(atomRT(c.TypeObj.Key.Type)), ite(colMin(c) == 1 && colMax(c) == 1, atomRT(c.TypeObj.Key.Type), sliceof(atomRT(c.TypeObj.Key.Type)))), atomRT(c.Type))))
+//@ pred ColWF(c *ColumnSchema) := c != nil && (IsAtom(c.Type) || ((c.Type == "enum" || c.Type == "set") && c.TypeObj != nil && c.TypeObj.Key != nil && IsAtom(c.TypeObj.Key.Type)) || (c.Type == "map" && c.TypeObj != nil && c.TypeObj.Key != nil && c.TypeObj.Value != nil && IsAtom(c.TypeObj.Key.Type) && IsAtom(c.TypeObj.Value.Type)))
 //@ func NativeType
-//@ trusted "nativeTypeOf(column) is by definition the value NativeType computes for the column"
 //@ pure
 //@ may_panic
-//@ ensures result == nativeTypeOf(column)
+// nativeTypeOf(column) is by definition the value NativeType computes for the column (link used by C09)
+//@ ensures_assumed result == nativeTypeOf(column)
+//@ ensures ColWF(column) ==> result == nativeRT(column)
+//@ func (*ColumnType).Min
+//@ pure
+//@ ensures result == ite(c.min == nil, 1, *c.min)
+//@ func (*ColumnType).Max
+//@ pure
+//@ ensures result == ite(c.max == nil, 1, *c.max)
 //@ func NativeTypeFromAtomic
 //@ trusted "returns the package-level reflect.Type values initialised from reflect.TypeOf(0), 0.0, true, \"\""
 //@ pure
